@@ -625,7 +625,8 @@ class _Decode:
             return  # other loops do not decode keys
         if isinstance(s, ast.If):
             # tests on literal keys ("model" in values) do not concern a family key
-            if kname is None or kname not in names_in(s.test):
+            derived = {n_ for n_ in names_in(s.test) if isinstance(env.get(n_), AStr)}
+            if kname is None or (kname not in names_in(s.test) and not derived):
                 # still scan both branches for comprehensions / loops over values
                 self._block(s.body, env, values, kname)
                 self._block(s.orelse, env, values, kname)
@@ -653,6 +654,15 @@ class _Decode:
                     kv = self._eval(v.key, env2, s)
                     self.records.append((s.targets[0].id, None, kv, s))
                     return
+            # a, b = x, y
+            if len(s.targets) == 1 and isinstance(s.targets[0], ast.Tuple) and isinstance(v, ast.Tuple) and len(v.elts) == len(s.targets[0].elts) and all(isinstance(e, ast.Name) for e in s.targets[0].elts):
+                for te, ve in zip(s.targets[0].elts, v.elts):
+                    self._stmt(ast.copy_location(ast.Assign(targets=[te], value=ve), s), env, values, kname)
+                return
+            # a table of receivers: targets = {"e_": pe, "c_": pc}
+            if len(s.targets) == 1 and isinstance(s.targets[0], ast.Name) and isinstance(v, ast.Dict) and v.keys and all(isinstance(k_, ast.Constant) and isinstance(k_.value, str) for k_ in v.keys) and all(isinstance(x_, ast.Name) for x_ in v.values):
+                env[s.targets[0].id] = ("table", {k_.value: x_.id for k_, x_ in zip(v.keys, v.values)})
+                return
             for t in s.targets:
                 if isinstance(t, ast.Name):
                     r = self._eval(v, env, s)
@@ -664,7 +674,16 @@ class _Decode:
                     # D[keyexpr] = v   or   D[idx][keyexpr] = v
                     base = t.value
                     idx = None
-                    if isinstance(base, ast.Subscript):
+                    if isinstance(base, ast.Subscript) and isinstance(base.value, ast.Name) and isinstance(env.get(base.value.id), tuple) and env[base.value.id][0] == "table":
+                        # targets[prefix][name] = v : the receiver is chosen by the decoded prefix
+                        sel = self._eval(base.slice, env, s)
+                        tbl = env[base.value.id][1]
+                        if isinstance(sel, AStr) and all(isinstance(x_, Lit) for x_ in sel.segs) and "".join(x_.text for x_ in sel.segs) in tbl:
+                            base = ast.Name(id=tbl["".join(x_.text for x_ in sel.segs)], ctx=ast.Load())
+                        else:
+                            self.unknown.append((s, "receiver table indexed by something else than a decoded literal prefix"))
+                            return
+                    elif isinstance(base, ast.Subscript):
                         idx = self._eval(base.slice, env, s)
                         base = base.value
                     if isinstance(base, ast.Name):
@@ -688,6 +707,12 @@ class _Decode:
         if isinstance(test, ast.UnaryOp) and isinstance(test.op, ast.Not):
             r = self._eval_test(test.operand, env, where)
             return (not r) if isinstance(r, bool) else r
+        if isinstance(test, ast.Compare) and len(test.ops) == 1 and isinstance(test.ops[0], (ast.In, ast.NotIn)) and isinstance(test.comparators[0], ast.Name) and isinstance(env.get(test.comparators[0].id), tuple) and env[test.comparators[0].id][0] == "table":
+            left = self._eval(test.left, env, where)
+            if isinstance(left, AStr) and all(isinstance(x_, Lit) for x_ in left.segs):
+                r = "".join(x_.text for x_ in left.segs) in env[test.comparators[0].id][1]
+                return r if isinstance(test.ops[0], ast.In) else (not r)
+            return None
         r = self._eval(test, env, where)
         return r if isinstance(r, bool) else None
 
